@@ -58,6 +58,14 @@ CLAIMED = {
          "Exploration: sizes of commitments, proofs and batch proofs of generated transcripts are compared with per-scheme equalities built from element sizes measured on the curve types (so they hold for every degree, bound, hiding setting, number of polynomials and labels generated); for Ligero/Brakedown the proof may not exceed 1.25x what its own matrix shape accounts for and 4x the best power-of-two shape of an analytic model using the exact t of C13. One root cause (F15: 2-row matrix whenever every column is opened) is a recorded known finding; other excesses are violations.",
          "The 4x law is the property's own; 'best shape' ranges over succinct shapes (t below the codeword length) whenever the library's shape is succinct - without that restriction the model would prefer shipping the whole polynomial at a few hundred coefficients, which is not what the property means. Brakedown's alternative shapes are modelled by its rate.",
          "DESIGN.md §4 C19"),
+ "C14": ("property-based testing (proptest): differential time-vs-space provers, known-trapdoor closed forms, naive folding model for the folded-polynomial iterators",
+         "Exploration: for generated polynomials, points, polynomial counts, buffer sizes and key sizes the streaming committer/prover is compared with the in-memory one (commitments, evaluations, remainders, proofs) and both with closed forms under a trapdoor known to the harness; the folding iterators are compared level by level with a naive fold of the zero-padded input for every length 1..130 and depth 0..7 generated, and commit_folding/open_folding with the time prover on the explicit folds. Found F10 (abort for fewer coefficients than points), repaired; catches the sub-agent change seeded/C14 (padding off-by-one).",
+         "The trapdoor is recovered by replaying the setup RNG; Commitment's inner point is crate-private and compared through its Debug form or through proofs of shifted polynomials.",
+         "DESIGN.md §4 C14"),
+ "C16": ("property-based testing (proptest): shadow-evaluator model for LinearCombination operator sequences, direct-evaluation oracle for evaluate_query_set, independent product expansion for SuccinctCheckPolynomial",
+         "Exploration with tens of thousands of cheap cases: random operator sequences over LinearCombination are mirrored on numbers under a random assignment and compared after every step; evaluate_query_set is compared with Horner evaluation and the exact key set; the succinct check polynomial's coefficient vector is compared with the harness's own expansion and its O(log d) evaluation with Horner.",
+         "none beyond field arithmetic of ark-ff",
+         "DESIGN.md §4 C16"),
 }
 
 NOT_YET = "check not built yet in this round (planned, see DESIGN.md §4)"
